@@ -55,6 +55,17 @@ def point_section(ck, rng, quick):
                 progs[name] = L; groups.setdefault(ti, []).append(name)
                 lines.append("prog " + name); lines.extend(L)
                 ck.count(("pt", t, tag, b), kind="point component: " + t.split()[0])
+    # several calls on two point witnesses in one composer: the shape must be the same whether the two points hold
+    # EQUAL values (as in the all-identity default instance) or distinct ones
+    Pq, Qq = J.random_subgroup_point(rng), J.random_subgroup_point(rng)
+    for si, seq_ in enumerate([["tors $0 $1", "tors $2 $3"], ["tors $0 $1", "tors $2 $3", "tors $0 $1"], ["padd $0 $1 $2 $3", "padd $2 $3 $0 $1", "tors $0 $1", "tors $2 $3"],
+                               ["pneg $0 $1", "pneg $2 $3", "psub $0 $1 $2 $3", "psub $2 $3 $0 $1"], ["w 1", "pselid $4 $0 $1", "pselid $4 $2 $3"]]):
+        for vi, (A_, B_) in enumerate([(J.ID, J.ID), (Pq, Pq), (Pq, Qq), (J.ID, Pq), (Pq, J.neg(Pq))]):
+            name = f"pseq{si}_{vi}"
+            L = raw(A_).split("\n") + raw(B_).split("\n") + seq_ + ["snap"]
+            progs[name] = L; groups.setdefault(f"pseq{si}", []).append(name)
+            lines.append("prog " + name); lines.extend(L)
+            ck.count(("pseq", si, vi), kind="point sequences: equal vs distinct values")
     # entry points taking an extended representation: Z = 0, inconsistent T1*T2, torsion, off-curve
     P = J.random_subgroup_point(rng); T = J.torsion_points()
     exts = [("Z=0", f"{hx(P[0])} {hx(P[1])} 0 {hx(P[0])} {hx(P[1])}"), ("Z=0 all zero", "0 0 0 0 0"), ("honest Z=1", e(P)), ("honest Z=7", e(P, 7)),
